@@ -55,7 +55,9 @@ class ElementLinePp(ElementH1):
 
     def lbasis(self, X, i):
 
-        if self.P.shape[1] != X.shape[1]:
+        if (not hasattr(self, '_Xp') or self._Xp.shape != X.shape
+                or (self._Xp != X).any()):
+            self._Xp = X.copy()
             self.P, self.dP = self._reval_legendre(X[0, :], self.p)
 
         return self.P[i], self.dP[i]
